@@ -137,3 +137,54 @@ def mesh_record(mesh, scale=None):
 
 def frac(x):
     return Fraction(float(x))
+
+
+# ---------------------------------------------------------------- mode L: exact fixed point (spec/Fx.tla)
+FX_B = 2**14
+FX_NL = 5
+
+
+def fx(x):
+    """Fixed-point limbs <<a1..a5>> of a float / Fraction / int: x ~ a1 + a2/B + ... + a5/B^4 (B = 2^14),
+    rounded to nearest at 2^-56, normal form (a2..a5 in 0..B-1, a1 signed).  Exact integer arithmetic only.
+    Returns None if |x| >= 2^30 or x is not finite (the caller logs the event's err instead)."""
+    if isinstance(x, (float, np.floating)):
+        if not np.isfinite(x):
+            return None
+        q = Fraction(float(x))
+    else:
+        q = Fraction(x)
+    n = q * FX_B**4
+    r = n.numerator // n.denominator          # floor
+    if 2 * (n - r) >= 1:
+        r += 1
+    limbs = []
+    for _ in range(FX_NL - 1):
+        limbs.append(int(r % FX_B))
+        r //= FX_B
+    if not -2**30 < r < 2**30:
+        return None
+    limbs.append(int(r))
+    return limbs[::-1]
+
+
+def fx_list(xs):
+    out = [fx(x) for x in np.asarray(xs).ravel().tolist()]
+    return None if any(o is None for o in out) else out
+
+
+def exact_int(x, scale=1):
+    """int(x*scale) if exact (and 32-bit safe), else None."""
+    q = Fraction(float(x)) * scale
+    if q.denominator != 1 or not -2**31 < q.numerator < 2**31:
+        return None
+    return int(q.numerator)
+
+
+def exact_ints(a, scale=1):
+    """Nested lists of exact ints for an array (row-major nested), or None if any entry is inexact."""
+    a = np.asarray(a, dtype=np.float64) * scale
+    r = np.rint(a)
+    if not np.array_equal(a, r) or (np.abs(r) >= 2**31 - 1).any():
+        return None
+    return r.astype(np.int64).tolist()
